@@ -856,57 +856,259 @@ pub fn field_sweep(sch: &TypeSchema, f: &mut dyn FnMut(&[Val])) {
                     f(&x);
                 }
             }
-            Kind::Str => {
-                for n in [3usize, 31, 32, 63, 64, 100, 127, 128, 129, 191, 192, 200, 254] {
-                    x[i] = Val::Str(bytes_n(n, n as u8));
-                    f(&x);
-                }
-            }
-            Kind::Tail => {
-                for n in [3usize, 16, 17, 31, 32, 33, 64, 127, 128, 255, 256, 257, 511, 512, 513, 1000, 4095, 4096, 5000] {
-                    x[i] = Val::Tail(bytes_n(n, n as u8));
-                    f(&x);
-                }
-            }
-            Kind::Name(_) => {
-                for nl in [5usize, 8, 16, 33, 64, 100, 127] {
-                    x[i] = Val::Name(RefName((0..nl).map(|j| B(vec![b'a' + (j % 26) as u8])).collect()));
-                    f(&x);
-                }
-                for ll in [2usize, 7, 8, 15, 16, 17, 31, 32, 33, 62] {
-                    x[i] = Val::Name(RefName(vec![label_n(ll, b'm'), b(b"example")]));
-                    f(&x);
-                }
-            }
-            Kind::Strs => {
-                for n in [3usize, 5, 8, 17, 40] {
-                    x[i] = Val::Strs((0..n).map(|j| bytes_n(j % 7, j as u8)).collect());
-                    f(&x);
-                }
-            }
-            Kind::Params => {
-                for n in [4usize, 7, 9, 16] {
-                    x[i] = Val::Params((0..n).map(|j| ((j * 3) as u16, bytes_n(j % 5, j as u8))).collect());
-                    f(&x);
-                }
-                for key in [5u16, 6, 7, 8, 100, 255, 256, 32768, 65279, 65280] {
-                    x[i] = Val::Params(vec![(key, b(&[1, 2]))]);
-                    f(&x);
-                }
-            }
-            Kind::Windows => {
-                for n in [3usize, 6, 20] {
-                    x[i] = Val::Windows((0..n).map(|j| ((j * 7) as u8, bytes_n(1 + j % 32, j as u8))).collect());
-                    f(&x);
-                }
-                for w in [3u8, 100, 127, 128, 254] {
-                    x[i] = Val::Windows(vec![(w, B(vec![0x55; 17]))]);
+            Kind::Str | Kind::Tail | Kind::Name(_) | Kind::Strs | Kind::Params | Kind::Windows => {
+                for v in size_values(*k) {
+                    x[i] = v;
                     f(&x);
                 }
             }
             Kind::GwType | Kind::Gateway => {}
         }
     }
+}
+
+/// Every size of a variable-size field kind, not only its boundaries: every character-string length
+/// 0..=255, every tail length 0..=600 plus a ladder, every label count 1..=127, every label length
+/// 1..=63, every total name length, list sizes 1..=70.
+pub fn size_values(k: Kind) -> Vec<Val> {
+    let mut out = Vec::new();
+    match k {
+        Kind::Str => {
+            for n in 0..=255usize {
+                out.push(Val::Str(bytes_n(n, n as u8)));
+            }
+        }
+        Kind::Tail => {
+            for n in (0..=600usize).chain([1000, 1023, 1024, 1025, 2047, 2048, 2049, 4095, 4096, 4097, 5000]) {
+                out.push(Val::Tail(bytes_n(n, n as u8)));
+            }
+        }
+        Kind::Name(_) => {
+            for nl in 1..=127usize {
+                out.push(Val::Name(RefName((0..nl).map(|j| B(vec![b'a' + (j % 26) as u8])).collect())));
+            }
+            for ll in 1..=63usize {
+                out.push(Val::Name(RefName(vec![label_n(ll, b'm'), b(b"example")])));
+            }
+            // every total wire length 3..=255: 63-byte labels then the remainder
+            for wl in 3..=255usize {
+                let mut left = wl - 1; // without the root byte
+                let mut labels = Vec::new();
+                let mut c = b'p';
+                while left > 0 {
+                    let take = if left >= 66 || left == 64 { 63 } else if left == 65 { 62 } else { left - 1 };
+                    labels.push(label_n(take, c));
+                    c += 1;
+                    left -= take + 1;
+                }
+                let n = RefName(labels);
+                if n.is_wire_valid() && n.wire_len() == wl {
+                    out.push(Val::Name(n));
+                }
+            }
+        }
+        Kind::Strs => {
+            for n in 1..=70usize {
+                out.push(Val::Strs((0..n).map(|j| bytes_n(j % 7, j as u8)).collect()));
+            }
+            for n in [100usize, 128, 129, 255, 256, 257, 300] {
+                out.push(Val::Strs((0..n).map(|j| bytes_n(j % 3, j as u8)).collect()));
+            }
+            for l in [31usize, 32, 33, 63, 64, 65, 127, 128, 129, 253, 254] {
+                out.push(Val::Strs(vec![bytes_n(l, 1), bytes_n(l, 2), bytes_n(255 - l, 3)]));
+            }
+        }
+        Kind::Params => {
+            for n in 0..=24usize {
+                out.push(Val::Params((0..n).map(|j| ((j * 3) as u16, bytes_n(j % 5, j as u8))).collect()));
+            }
+            for key in [5u16, 6, 7, 8, 100, 255, 256, 32768, 65279, 65280] {
+                out.push(Val::Params(vec![(key, b(&[1, 2]))]));
+            }
+            for l in (0..=70usize).chain([127, 128, 255, 256, 257, 511, 512, 1000]) {
+                out.push(Val::Params(vec![(1, bytes_n(l, l as u8)), (7, bytes_n(3, 1))]));
+            }
+        }
+        Kind::Windows => {
+            for n in 1..=36usize {
+                out.push(Val::Windows((0..n).map(|j| ((j * 7) as u8, bytes_n(1 + j % 32, j as u8))).collect()));
+            }
+            for w in 0..=255u8 {
+                out.push(Val::Windows(vec![(w, B(vec![0x55; 1 + (w as usize % 32)]))]));
+            }
+            for l in 1..=32usize {
+                let mut bm = vec![0u8; l];
+                bm[l - 1] = 0x01;
+                out.push(Val::Windows(vec![(1, B(bm))]));
+            }
+        }
+        _ => {}
+    }
+    out
+}
+
+/// One record per (schema, variable-size field, size): the full size sweep as records.
+pub fn size_sweep_records() -> Vec<RefRR> {
+    let mut out = Vec::new();
+    for sch in SCHEMAS {
+        let base = default_vals(sch);
+        for (i, k) in val_kinds(sch).iter().enumerate() {
+            for v in size_values(*k) {
+                let mut x = base.clone();
+                x[i] = v;
+                if !vals_wire_representable(sch, &x) || !vals_rfc_canonical(&x) {
+                    continue;
+                }
+                let mut r = base_rr(sch);
+                r.rdata = RefRData::Typed { code: sch.code, vals: x };
+                out.push(r);
+            }
+        }
+    }
+    out
+}
+
+/// The size sweep as packets: the record between a question for its owner and a CNAME naming
+/// the same owner; plus owner / question names over the whole name size sweep.
+pub fn size_sweep_packets() -> Vec<RefPacket> {
+    let mut out = Vec::new();
+    for r in size_sweep_records() {
+        let mut p = RefPacket { id: 0x5123, flags: F_QR | F_AA, ..Default::default() };
+        p.questions.push(RefQ { name: r.name.clone(), qtype: 255, qclass: 1, unicast: false });
+        let owner = r.name.clone();
+        p.answers.push(r);
+        p.additional.push(RefRR { name: RefName::txt("alias.example.com"), class: 1, cache_flush: false, ttl: 5, rdata: rdata_with_names(5, &[owner]) });
+        out.push(p);
+    }
+    for v in size_values(Kind::Name(Comp::Rfc1035)) {
+        let Val::Name(n) = v else { continue };
+        let mut p = RefPacket { id: 0x5124, flags: F_QR, ..Default::default() };
+        p.questions.push(RefQ { name: n.clone(), qtype: 1, qclass: 1, unicast: false });
+        p.answers.push(RefRR { name: n.clone(), class: 1, cache_flush: false, ttl: 9, rdata: RefRData::Typed { code: 1, vals: vec![Val::U32(0x0a000001)] } });
+        // a parent (one label shorter) and a child (one label longer, if it fits) sharing the suffix
+        if n.0.len() > 1 {
+            p.answers.push(RefRR { name: RefName(n.0[1..].to_vec()), class: 1, cache_flush: false, ttl: 8, rdata: rdata_with_names(2, &[n.clone()]) });
+        }
+        let mut child = vec![b(b"c")];
+        child.extend(n.0.iter().cloned());
+        let child = RefName(child);
+        if child.is_wire_valid() {
+            p.additional.push(RefRR { name: child, class: 1, cache_flush: false, ttl: 7, rdata: RefRData::Typed { code: 1, vals: vec![Val::U32(0x0a000002)] } });
+        }
+        out.push(p);
+    }
+    // many distinct names, each used again later
+    for n in [2usize, 40, 127, 128, 129, 255, 256, 257, 300, 400] {
+        let mut p = RefPacket { id: 0x5125, flags: F_QR, ..Default::default() };
+        p.questions.push(RefQ { name: RefName::txt("example.com"), qtype: 255, qclass: 1, unicast: false });
+        let host = |i: usize| RefName(vec![b(format!("h{:03}", i).as_bytes()), b(b"example"), b(b"com")]);
+        for i in 0..n {
+            p.answers.push(RefRR { name: host(i), class: 1, cache_flush: false, ttl: i as u32, rdata: RefRData::Typed { code: 1, vals: vec![Val::U32(i as u32)] } });
+        }
+        for i in 0..n {
+            let r = if i % 3 == 0 { rdata_with_names(5, &[host((i * 7) % n)]) } else { RefRData::Typed { code: 1, vals: vec![Val::U32(!(i as u32))] } };
+            p.additional.push(RefRR { name: host(i), class: 1, cache_flush: false, ttl: i as u32, rdata: r });
+        }
+        out.push(p);
+    }
+    out
+}
+
+/// Hand-laid messages whose names need many decoding steps: k inline one-byte labels with and
+/// without a closing pointer (every k up to 130), a label of every length before a pointer, and
+/// chains of h label-less backward pointers (every h up to `max_chain`, then a ladder up to 8000)
+/// reached from an owner name, from an MX exchange and from a question. `rdata_name_at` is unused
+/// here; every record has its natural RDLENGTH and a sentinel A record follows.
+pub fn name_shape_messages(max_chain: usize) -> Vec<Vec<u8>> {
+    fn hdr(counts: [u16; 4]) -> Vec<u8> {
+        let mut h = vec![0x6e, 0x73, 0x84, 0x00];
+        for c in counts {
+            h.extend_from_slice(&c.to_be_bytes());
+        }
+        h
+    }
+    let a_tail = |m: &mut Vec<u8>, last: u8| m.extend_from_slice(&[0, 1, 0, 1, 0, 0, 0, 9, 0, 4, 10, 0, 0, last]);
+    let sentinel = |m: &mut Vec<u8>| {
+        m.extend_from_slice(&[1, b's', 0xc0, 12]);
+        m.extend_from_slice(&[0, 1, 0, 1, 0, 0, 0, 7, 0, 4, 10, 9, 9, 9]);
+    };
+    let mut out = Vec::new();
+    for k in 0..=130usize {
+        for closing_pointer in [true, false] {
+            // question "z" at offset 12; answer owner = k labels (+ pointer to 12 | root)
+            let mut m = hdr([1, 2, 0, 0]);
+            m.extend_from_slice(&[1, b'z', 0, 0, 1, 0, 1]);
+            for i in 0..k {
+                m.extend_from_slice(&[1, b'a' + (i % 26) as u8]);
+            }
+            if closing_pointer {
+                m.extend_from_slice(&[0xc0, 12]);
+            } else {
+                m.push(0);
+            }
+            a_tail(&mut m, k as u8);
+            sentinel(&mut m);
+            out.push(m);
+        }
+    }
+    for l in 1..=63usize {
+        for second in [0usize, 1, 63] {
+            let mut m = hdr([1, 2, 0, 0]);
+            m.extend_from_slice(&[1, b'z', 0, 0, 1, 0, 1]);
+            m.push(l as u8);
+            m.extend(std::iter::repeat(b'l').take(l));
+            if second > 0 {
+                m.push(second as u8);
+                m.extend(std::iter::repeat(b'm').take(second));
+            }
+            m.extend_from_slice(&[0xc0, 12]);
+            a_tail(&mut m, l as u8);
+            sentinel(&mut m);
+            out.push(m);
+        }
+    }
+    let hops: Vec<usize> = (1..=max_chain).chain([2000usize, 4000, 8000].into_iter().filter(|h| *h > max_chain)).collect();
+    for h in hops {
+        for end_labels in [1usize, 126] {
+            if end_labels > 1 && h > 300 && h % 97 != 0 {
+                continue;
+            }
+            // question "z"; answer 1: NULL record (root owner) whose RDATA holds a name followed
+            // by h pointers, each to the previous one; answer 2: owner = pointer to the last one;
+            // answer 3: MX whose exchange is a pointer to the last one; then the sentinel
+            let mut m = hdr([1, 4, 0, 0]);
+            m.extend_from_slice(&[1, b'z', 0, 0, 1, 0, 1]);
+            m.extend_from_slice(&[0, 0, 10, 0, 1, 0, 0, 0, 1]);
+            let rdlen = end_labels * 2 + 1 + 2 * h;
+            if rdlen > 65000 {
+                continue;
+            }
+            m.extend_from_slice(&(rdlen as u16).to_be_bytes());
+            let mut prev = m.len();
+            for i in 0..end_labels {
+                m.extend_from_slice(&[1, b'f' + (i % 7) as u8]);
+            }
+            m.push(0);
+            for _ in 0..h {
+                let here = m.len();
+                m.extend_from_slice(&[0xc0 | (prev >> 8) as u8, prev as u8]);
+                prev = here;
+            }
+            if prev > 0x3fff {
+                continue;
+            }
+            let p = [0xc0 | (prev >> 8) as u8, prev as u8];
+            m.extend_from_slice(&p);
+            a_tail(&mut m, 1);
+            m.extend_from_slice(&[1, b'x']);
+            m.extend_from_slice(&p);
+            m.extend_from_slice(&[0, 15, 0, 1, 0, 0, 0, 3, 0, 4, 0, 10]);
+            m.extend_from_slice(&p);
+            sentinel(&mut m);
+            out.push(m);
+        }
+    }
+    out
 }
 
 /// Packets with more than a handful of entries of mixed types, and packets whose total size
